@@ -444,23 +444,29 @@ def run_sums(ctx, tg, dis):
         itext.append("sum %s %d %d %s %s\n" % (cid, n, m, flat(a), flat(b)))
         mtext.append("sum %s %d %d %s %s\n" % (cid, n, m, qflat(a), qflat(b)))
         ctx.count("sum:" + ("equal" if m == n else "longer" if m > n else "shorter"))
-    short = [k for k, cid in enumerate(meta) if meta[cid][1] < meta[cid][0]]
-    rc, out, err = run_driver(tg["impl_imp"], "".join(t for k, t in enumerate(itext) if k not in short))
-    if rc != 0:
-        raise RuntimeError("impl_imp (sum): rc=%d %s" % (rc, err[-500:]))
-    impl = parse_cases(out)
-    rc, out, err = run_driver(tg["impl_imp"], "".join(itext[k] for k in short))
-    impl.update(parse_cases(out))
-    if rc != 0:
-        done = [cid for cid in meta if cid in impl and "out" in impl[cid]]
-        first = [cid for k, cid in enumerate(meta) if k in short and cid not in done][0]
-        n, m, a, b = meta[first]
-        ctx.violation("impl-oracle", "operator+= with a shorter right-hand side crashes (rc=%d)" % rc,
-                      case=dict(kind="sum", n=n, m=m, lhs=[[fhex(x), fhex(y)] for x, y in a], rhs=[[fhex(x), fhex(y)] for x, y in b]),
-                      observed="process died", expected="pointwise sum", sig=dict(kind="sum", clause="sum", short_rhs=True))
-        for cid in list(meta):
-            if cid not in done:
-                del meta[cid]
+    # equal, longer and shorter right-hand sides run in separate processes: a loop bound beyond one of the two vectors is
+    # undefined behaviour and may kill the process, which is reported as a failing input of its group
+    ids = list(meta)
+    groups = {"equal": [k for k, cid in enumerate(ids) if meta[cid][1] == meta[cid][0]],
+              "longer": [k for k, cid in enumerate(ids) if meta[cid][1] > meta[cid][0]],
+              "shorter": [k for k, cid in enumerate(ids) if meta[cid][1] < meta[cid][0]]}
+    impl = {}
+    for gname, ks in groups.items():
+        if not ks:
+            continue
+        rc, out, err = run_driver(tg["impl_imp"], "".join(itext[k] for k in ks))
+        impl.update(parse_cases(out))
+        if rc != 0:
+            done = [cid for cid in meta if cid in impl and "out" in impl[cid]]
+            first = [ids[k] for k in ks if ids[k] not in done][0]
+            n, m, a, b = meta[first]
+            ctx.violation("impl-oracle", "operator+= with %s right-hand side crashes (rc=%d)" % (
+                {"equal": "an equally long", "longer": "a longer", "shorter": "a shorter"}[gname], rc),
+                          case=dict(kind="sum", n=n, m=m, lhs=[[fhex(x), fhex(y)] for x, y in a], rhs=[[fhex(x), fhex(y)] for x, y in b]),
+                          observed="process died", expected="pointwise sum", sig=dict(kind="sum", clause="sum", short_rhs=m < n, crashed=True))
+            for k in ks:
+                if ids[k] not in done and ids[k] in meta:
+                    del meta[ids[k]]
     rc, out, err = run_driver(vp_coq.model_path("imp"), "".join(mtext))
     if rc != 0:
         raise RuntimeError("model_imp (sum): rc=%d %s" % (rc, err[-500:]))
